@@ -9,5 +9,6 @@ CONSTANTS
   MaxForce = 0
   MaxStops = 0
   MaxKills = 0
+  MaxPauses = 0
 INVARIANT StuckInTime
 CHECK_DEADLOCK FALSE
